@@ -152,6 +152,19 @@ let register (h : (string, string list -> string) Hashtbl.t)
       String.concat " " (List.map (function RIgnored t -> "I:" ^ csv_of_ints t | RNewline n -> "N:" ^ string_of_int (int_of_nat n)) cs
                          @ ["R:" ^ string_of_int (List.length rest)])
     | _ -> failwith "region args");
+  (* ---------------- LexSpecC ----------------
+     lexc <text csv>  ->  one item per token: <kind letter><d|-><length>  (the texts are the consecutive slices of the input) *)
+  Hashtbl.replace h "lexc" (fun args ->
+    match args with
+    | [txt] ->
+      let l = ints_of_csv txt in
+      let kl = function KWs -> "w" | KWord -> "W" | KNumber -> "N" | KPunct -> "P" | KStr -> "S" | KChar -> "C" | KCmtLine -> "l"
+                      | KCmtBlock -> "b" | KDirHash -> "H" | KDirEnd -> "E" in
+      let b = Buffer.create 4096 in
+      List.iter (fun t -> Buffer.add_string b (kl t.tk); Buffer.add_string b (if t.tdir then "d" else "-");
+                          Buffer.add_string b (string_of_int (List.length t.tt)); Buffer.add_char b ' ') (lex l);
+      Buffer.contents b
+    | _ -> failwith "lexc args");
   Hashtbl.replace h "backup_step" (fun args ->
     match args with
     | [fl; bk; cpl; md; prot; ev] ->
